@@ -90,7 +90,12 @@ class TagValidator:
             list: Validation issues. Each issue is a dictionary.
         """
         validation_issues = []
-        tag_names = original_tag.org_base_tag.split("/")
+        base_tag = original_tag.org_base_tag
+        # The library namespace is not part of the first node name.
+        namespace = original_tag.schema_namespace
+        if namespace and base_tag.startswith(namespace):
+            base_tag = base_tag[len(namespace):]
+        tag_names = base_tag.split("/")
         for tag_name in tag_names:
             correct_tag_name = tag_name.capitalize()
             if tag_name != correct_tag_name and not re.search(self.CAMEL_CASE_EXPRESSION, tag_name):
